@@ -26,7 +26,7 @@ TIMEOUT = {"quick": 900, "thorough": 3600}
 SCTP_CLONES = {"quick": ['rand3', 'exh9'], "thorough": ['rand10', 'rand11', 'exh15']}
 OUTCOMES = ["refused", "inprogress_ok_gone", "inprogress_fail", "cea_rejected", "cea_timeout", "gone", "error", "dpr",
             "inbound_dup_closed", "pending_inbound_lost", "inbound_dup_then_dpr", "write_error",
-            "inbound_then_gone", "dpr_late_dwa", "dpr_repeated", "pending_rejected_inbound_dpr"]
+            "inbound_then_gone", "dpr_late_dwa", "dpr_repeated", "pending_rejected_inbound_dpr", "socket_fails"]
 FLAGSETS = [
     dict(persistent=True, always_reconnect=False, reconnect_wait=3, addr=True),
     dict(persistent=True, always_reconnect=True, reconnect_wait=2, addr=True),
@@ -84,6 +84,7 @@ class Case:
 
     def new_connects(self):
         ev = self.w.observe()["events"]
+        self.socket_fail_events = getattr(self, "socket_fail_events", 0) + sum(1 for e in ev if e["kind"] == "socket_fail")
         return [e for e in ev if e["kind"] == "connect"], ev
 
     def live_outbound(self):
@@ -223,6 +224,8 @@ class Case:
         dialable = f["persistent"] and f["addr"]
         addr = ("10.1.0.1", 3868)
         pre = {"refused": ["refused"], "inprogress_ok_gone": ["inprogress-ok"], "inprogress_fail": ["inprogress-fail"]}
+        if outcome == "socket_fails" and (first or not dialable):
+            outcome = "gone"
         if dialable:
             h.script_connect(addr[0], addr[1], *(pre.get(outcome, ["ok"])))
             if first:
@@ -261,8 +264,20 @@ class Case:
                     if q:
                         q.pop()         # the connect outcome scripted for this step was not used: no dial happened
                     return True
+                if outcome == "socket_fails":
+                    h.socket_failures = 1
                 if not self.wait_for_dial():
+                    h.socket_failures = 0
                     return False
+                if outcome == "socket_fails":
+                    # the attempt that was due died before a socket existed (EMFILE): nothing has changed for the peer,
+                    # so the next timer check - the next pass of the loop, still in this step - has dialled again,
+                    # which is the one connect the policy model asked for
+                    if getattr(self, "socket_fail_events", 0):
+                        self.run.cov["dial_failed_at_socket_creation"] = \
+                            self.run.cov.get("dial_failed_at_socket_creation", 0) + 1
+                    h.socket_failures = 0
+                    outcome = "gone"
         else:
             if first:
                 self.w.start()
